@@ -51,6 +51,9 @@ class ConfigurationDict(UserDict):
 
     def __setitem__(self, key, value):
         key = self.__class__._k(key)
+        if isinstance(value, bytes):
+            # text may arrive as bytes (e.g. HDF5 attributes, `np.bytes_`)
+            value = value.decode("utf-8")
         # make sure "section: key" exists
         if self.section:
             valid = verify_section_key(self.section, key)
